@@ -707,14 +707,46 @@ STUBS = ["system date (SimClock via date shim; constant in this check)",
          "with-block bodies (the simulator's interpreter)"]
 
 
+def _possible_prefixes(max_len, max_depth=MAX_DEPTH):
+    """All token-symbol sequences of length <= max_len the generator's
+    grammar allows (3 converter symbols per kind; a raise of k levels is
+    followed by its k block delimiters)."""
+    out = set()
+    flat = ['R0', 'R1', 'R2', 'X0', 'X1', 'X2', 'B.', 'g0', 'g1', 'g2',
+            'x0', 'x1', 'x2']
+
+    def rec(prefix, depth, forced):
+        if prefix:
+            out.add(''.join(prefix))
+        if len(prefix) >= max_len:
+            return
+        if forced:
+            rec(prefix + ['L.'], depth - 1, forced - 1)
+            return
+        for t in flat:
+            rec(prefix + [t], depth, 0)
+        if depth < max_depth:
+            for t in ('E0', 'E1', 'E2'):
+                rec(prefix + [t], depth + 1, 0)
+        if depth >= 1:
+            rec(prefix + ['L.'], depth - 1, 0)
+            rec(prefix + ['U.'], depth, 0)
+            rec(prefix + ['!1'], depth, 1)
+            if depth >= 2:
+                rec(prefix + ['!2'], depth, 2)
+    rec([], 0, 0)
+    return out
+
+
 def extra_coverage(results, reach):
-    # fraction of all token-symbol sequences of length <= 2 seen as prefix
-    alpha = ['E0', 'E1', 'E2', 'R0', 'R1', 'R2', 'X0', 'X1', 'X2', 'B.',
-             'g0', 'g1', 'g2', 'x0', 'x1', 'x2']
-    # (leave / raise / unsafe cannot start a history: depth 0)
+    """Which fraction of all op-symbol sequences of length <= 3 occurred as
+    the prefix of an executed history (converter indices taken modulo 3,
+    raise levels capped at 2)."""
     seen = reach.get('prefix4', set())
-    l1 = sum(1 for a in alpha if a in seen)
-    return {'prefix_coverage': {
-        'alphabet_at_depth0': len(alpha),
-        'len1_seen': l1, 'len1_possible': len(alpha),
-        'distinct_prefixes_len_le4': len(seen)}}
+    cov = {}
+    for n in (1, 2, 3):
+        poss = {p for p in _possible_prefixes(n) if len(p) == 2 * n}
+        got = {p for p in seen if len(p) == 2 * n}
+        cov[f'len{n}'] = {'seen': len(got & poss), 'possible': len(poss)}
+    cov['distinct_prefixes_len_le4'] = len(seen)
+    return {'prefix_coverage': cov}
